@@ -288,6 +288,11 @@ def minimise(sc, name, prog, unit, target, budget=18):
                 del c.globals[role][i]
                 if still(c):
                     u, changed = c, True
+            for i in range(len(u.raws[role]) - 1, -1, -1):
+                c = copy.deepcopy(u)
+                del c.raws[role][i]
+                if still(c):
+                    u, changed = c, True
         for role in ('D', 'I', 'M'):
             for i in range(len(u.sites[role]) - 1, -1, -1):
                 if sum(len(u.sites[x]) for x in ('D', 'I', 'M')) <= 1:
